@@ -34,6 +34,8 @@ import (
 	"encoding/json"
 	"errors"
 	"fmt"
+	"github.com/ghodss/yaml"
+	"github.com/pelletier/go-toml"
 	"math/rand/v2"
 	"net/http"
 	"os"
@@ -50,7 +52,6 @@ import (
 
 	"github.com/ory/herodot"
 
-	"github.com/ory/keto/internal/driver/config"
 	"github.com/ory/keto/internal/namespace"
 	"github.com/ory/keto/internal/schema"
 	rts "github.com/ory/keto/proto/ory/keto/relation_tuples/v1alpha2"
@@ -97,6 +98,12 @@ func c19Legacy(ext, name string, id int) string {
 func c19LegacyInvalid(r *rand.Rand, ext string) (string, string) {
 	switch ext {
 	case ".json":
+		if r.IntN(3) == 0 {
+			// a complete object followed by something: invalid as a document, but a
+			// decoder that stops after the first value would load it
+			name := fmt.Sprintf("trailing%d", r.IntN(1000))
+			return "syntax-invalid", fmt.Sprintf("{\"id\": %d, \"name\": %q}", 50+r.IntN(50), name) + pickS(r, []string{"}", "\n{\"id\": 9, \"name\": ", " garbage", "]", "\n}\n"})
+		}
 		return pickS(r, []string{"syntax-invalid", "type-invalid"}), pickS(r, []string{"{\"id\": 3, \"name\": ", "{\"id\": \"x\", \"name\": 5}", "not json", "[1,2"})
 	case ".toml":
 		return "syntax-invalid", pickS(r, []string{"name = ", "id = = 3\n", "[[[\n", "name = \"unterminated\n"})
@@ -277,13 +284,30 @@ func c19Meaning(opl bool, fileName, content string, removed bool) (valid bool, n
 		sort.Strings(names)
 		return true, names, digest, nil
 	}
-	parse, err := config.GetParser(fileName)
-	if err != nil {
+	// The meaning of a legacy file is decided with the decoding libraries
+	// directly, NOT with keto's config.GetParser (the oracle must not move with
+	// the code under observation).
+	n := namespace.Namespace{}
+	var err error
+	switch strings.ToLower(filepath.Ext(fileName)) {
+	case ".json":
+		err = json.Unmarshal([]byte(content), &n)
+		if err != nil {
+			// what a lenient decoder (first JSON value only) would load
+			var first namespace.Namespace
+			if json.NewDecoder(strings.NewReader(strings.TrimPrefix(content, "\ufeff"))).Decode(&first) == nil && first.Name != "" {
+				raw = []string{first.Name}
+			}
+		}
+	case ".yaml", ".yml":
+		err = yaml.Unmarshal([]byte(content), &n)
+	case ".toml":
+		err = toml.Unmarshal([]byte(content), &n)
+	default:
 		return false, nil, digest, nil
 	}
-	n := namespace.Namespace{}
-	if err := parse([]byte(content), &n); err != nil {
-		return false, nil, digest, nil
+	if err != nil {
+		return false, nil, digest, raw
 	}
 	digest[n.Name] = fmt.Sprintf("id=%d", n.ID) //nolint:staticcheck
 	return true, []string{n.Name}, digest, nil
@@ -818,6 +842,26 @@ func (h *c19Run) judge() (finds []c19Finding, decisions int64, observed map[stri
 					observed[fmt.Sprintf("%d/%d/%d", h.idx, f, bestV.Seq)] = true
 				}
 				continue
+			}
+			// A REMOVE event is applied at its position in the watcher's queue, while
+			// the content of a change event is read when the event is handled: a
+			// lagging watcher can therefore show a NEWER content first (read late by
+			// an old change event) and the file's removal afterwards, before the
+			// re-creation events arrive. "Nothing of this file" is then the removed
+			// version of the file - one valid version loaded so far, as the property
+			// demands - although a newer one had been observed. Admitted (and counted);
+			// the floor is not raised by it.
+			if (s.Get == "" && len(fp.part) == 0) || (s.Get != "" && !s.Found) {
+				removedBefore := false
+				for _, v := range h.vers[f] {
+					if v.Kind == "remove" && v.TB < s.T1 {
+						removedBefore = true
+					}
+				}
+				if removedBefore {
+					h.run.count("removal_applied_after_newer_content_was_read", 1)
+					continue
+				}
 			}
 			// no admissible version: classify
 			failures++
